@@ -2,10 +2,13 @@
    that decodes completely into records, exactly one of which - the last - is an EndRequest with the request's id.
    Part A: decoding a sequence of complete records; typed records ([typed id]: complete records none of which is an EndRequest of
            request [id]) and the records the model writes.
-   Part B: the request id handed over by the request parser is a 16-bit value.
-   Part C: the stream parser appends only typed records to its output (on the abstract machine, transferred by refinement).
-   Part D: the typed invariant threaded through Async/Conn.v (next to FrameProofs' invariants).
-   Part E: the theorem and a run. *)
+   Part C: the stream parser appends only typed records to its output (on the abstract machine, transferred by refinement; an
+           EndRequest among its replies - CantMpxConn - carries the id of ANOTHER request, a 16-bit value as the input is bytes).
+   Part B: the request id handed over by the request parser is a 16-bit value (so the epilogue's records decode to that id).
+   Part D: the typed invariant threaded through Async/Conn.v, relative to a base log (next to FrameProofs' invariants):
+           D1 Request::poll_output / poll_input / record_boundary, D2 handlers and Request::close.
+   Part E: Token::run with the ghost log; the theorem.
+   Part F: a run (PeerProofs2.ex2). *)
 From Coq Require Import ZArith.
 From FV Require Import Base.Bytes Base.BytesLemmas Gen.Generated Codec.Varint Codec.NV Codec.Header Codec.Bodies Codec.Vars
   Codec.ProtoProofs Parser.ReqModel Parser.ReqParamsSpec Parser.ReqWire Parser.ReqTargets Parser.ReqParams Parser.ReqDrive Parser.ReqRecords Parser.ReqFinal
@@ -1110,3 +1113,65 @@ Proof.
            (new_parser_ok B HB) I Wok W0 R0 (Forall_nil _)).
 Qed.
 Print Assumptions epilogue_records.
+
+(* ------------------------------------------------------------------------------------------ *)
+(* Part F: the statement is about non-trivial runs: the client and handler of PeerProofs2.ex2 (one Responder request,
+   id 1, no KeepConn, with a GetValues query in front of the end of its Stdin; the handler reads Stdin to the end and
+   writes "hi" to Stdout).  Every hypothesis of the theorem holds ... *)
+(* ------------------------------------------------------------------------------------------ *)
+Example epr_hyps :
+  64 < SIZE_LIMIT - 8 /\ world_ok (ex2_w 1) /\ wlog (ex2_w 1) = [] /\ no_fault (wscript (ex2_w 1)) /\
+  stop_at (ex2_w 1) = 0 /\ stopped (ex2_w 1) = false /\
+  scripts_ok false ex2_scripts /\ Forall writes_std ex2_scripts /\ Forall no_abandoned_read ex2_scripts.
+Proof.
+  destruct exf_hyps as (H1 & H2 & H3 & H4 & H5 & _ & H7 & H8 & H9).
+  split; [exact H1|]. split; [exact H2|]. split; [exact H3|]. split; [exact H4|]. split; [exact H7|]. split; [exact H8|].
+  split; [exact H5|]. split; [|exact H9].
+  constructor; [|constructor]. apply WS_all. apply (WS_write 6 2 [104; 105]); [left; reflexivity|apply WS_nil].
+Qed.
+
+(* ... the ghost log has ONE entry, closed; while the handler ran the log grew by the GetValuesResult reply (a management record,
+   id 0) and the handler's Stdout record; close appended the empty Stdout and Stderr records and the one EndRequest of id 1 *)
+Example epilogue_records_ex :
+  let '(o, w', l) := exl_run in
+  o = ORet /\
+  match l with
+  | [s] =>
+    let H := exl_reply ++ stream_records RT_Stdout 1 [104; 105] in
+    let C := hdr_encode RT_Stdout 1 0 0 ++ hdr_encode RT_Stderr 1 0 0 ++ end_record EXIT_SUCCESS_CODE PS_RequestComplete 1 in
+    r_id (sv_req s) = 1 /\ sv_start s = [] /\ sv_ret s = sv_start s ++ H /\ sv_closed s = Some (sv_ret s ++ C) /\ sv_gate s = true /\
+    decode H = [(RT_GetValuesResult, 0, take 18 (drop 8 exl_reply)); (RT_Stdout, 1, [104; 105])] /\
+    decode C = [(RT_Stdout, 1, []); (RT_Stderr, 1, []); (RT_EndRequest, 1, end_encode EXIT_SUCCESS_CODE PS_RequestComplete)]
+  | _ => False
+  end.
+Proof. vm_compute. repeat split. Qed.
+
+(* the theorem applied to this client and handler, for every normalisation function, max_conns and fuel *)
+Example epilogue_records_ex_any norm maxc fuel :
+  let '(o, w', l) := run_loop_log norm maxc fuel (new_parser 64) ex2_scripts 0 (ex2_w 1) [] in
+  Forall (fun s => match sv_closed s with Some L2 => answered_once s L2 | None => True end) l.
+Proof.
+  destruct epr_hyps as (H1 & H2 & H3 & H4 & H5 & H6 & H7 & H8 & H9).
+  exact (epilogue_records norm maxc fuel 64 ex2_scripts (ex2_w 1) H1 H2 H3 H4 H5 H6 H7 H8 H9).
+Qed.
+
+(* ... in particular to the run above (exl_run, spelled out): its one invocation is closed and answered exactly once *)
+Example epilogue_records_ex_thm :
+  let l := snd (run_loop_log (fun b => b) 10 (nb (ex2_w 1) + 4) (new_parser 64) ex2_scripts 0 (ex2_w 1) []) in
+  length l = 1%nat /\ Forall (fun s => exists L2, sv_closed s = Some L2 /\ answered_once s L2) l.
+Proof.
+  cbv zeta. split; [vm_compute; reflexivity|].
+  assert (Hc : forallb (fun s => match sv_closed s with Some _ => true | None => false end)
+                 (snd (run_loop_log (fun b => b) 10 (nb (ex2_w 1) + 4) (new_parser 64) ex2_scripts 0 (ex2_w 1) [])) = true)
+    by (vm_compute; reflexivity).
+  pose proof (epilogue_records_ex_any (fun b => b) 10 (nb (ex2_w 1) + 4)%nat) as T.
+  destruct (run_loop_log (fun b => b) 10 (nb (ex2_w 1) + 4) (new_parser 64) ex2_scripts 0 (ex2_w 1) []) as [[o w'] l].
+  cbn [snd] in *.
+  rewrite forallb_forall in Hc. rewrite Forall_forall in T. apply Forall_forall. intros s Hin.
+  specialize (Hc s Hin). specialize (T s Hin). destruct (sv_closed s) as [L2|]; [|discriminate Hc].
+  exists L2. split; [reflexivity|exact T].
+Qed.
+
+Print Assumptions epilogue_records.
+Print Assumptions epilogue_records_ex.
+Print Assumptions epilogue_records_ex_thm.
